@@ -410,8 +410,10 @@ class ConnectionState:
             response, selected = await func(cmd)
         except BaseException:
             if self._selected is not None:
-                # only the failed command itself may hold back expunges
+                # only the failed command itself may hold back expunges or
+                # silence flag updates
                 self._selected.hide_expunged = False
+                self._selected.unsilence()
             raise
         if selected is not None:
             self._selected, untagged = selected.fork(cmd)
